@@ -79,6 +79,7 @@ def run(cx):
         by_id[r["id"]] = r
         if any(p["kind"] in ("rejected", "interrupted") for p in pieces) or len(pieces) > 2:
             nontriv.add(json.dumps([p.get("src") for p in r["pieces"]]))
+    cx.alive(skipped, len(rows), "incremental histories")
     mism, unknown = langlib.tlc_conform(cx, cases, spec="PiecesCheck", prefix="pieces", strip=())
     # PiecesCheck prints <<"MISMATCH", id, piece, json>>: parse separately
     mism3 = []
